@@ -25,6 +25,14 @@ def init : DStore := ⟨[], []⟩
 
 abbrev DR := Except Err Out × DStore
 
+/-- making an importer on the one-graph-per-container backend (`NetworkXGraphImporterDisjoint(logger=…)` → the singleton shell
+    `NetworkXGraphStorageDisjoint.__init__`): as `Store.enter` - the existing store object is left alone whatever arguments
+    the importer is given; read from the generated flag -/
+def enter (cur : Option DStore) : DStore :=
+  match cur with
+  | none => (⟨[], []⟩ : DStore)
+  | some d => if Gen.StoreFlow.flow.disjointStoreSurvivesNewImporter then d else (⟨[], []⟩ : DStore)
+
 /-- the graph stored under `g` and its id counter, as a shared-store value -/
 def sub (d : DStore) (g : String) : Store :=
   match AMap.get g d.graphs with
